@@ -290,7 +290,14 @@ def scenario_b(name):
                                  [tx4, 4, 'txid', 'merkle_root'], 'tsc4-first'),
                           ev_req('blockchain.transaction.get_tsc_merkle',
                                  [tx4, 4, 'tx', 'block_header'], 'tsc4-second')],
+        # a reorganisation of depth 1 (only the small tip block is replaced): short enough for
+        # the whole second deviation level
+        'short': [ev_req('blockchain.block.header', [2, tip], 's-hdr-2-tip'),
+                  ev_req('blockchain.transaction.get_merkle', [tx4, 4], 's-merkle4'),
+                  ev_req('blockchain.block.header', [tip, tip], 's-hdr-tip-tip')],
     }[name]
+    if name == 'short':
+        y = branch(SMALL, 1, ['cb', 'cb'])                           # replaces 5; tip 6
     if name == 'burst':
         # a client pipelines several proof requests: they are all in flight together, their
         # reads complete in any order (no reorganisation needed for them to interfere)
